@@ -205,6 +205,14 @@ template <class C> Verdict check_C13(const Plan& plan, Stats& st) {
     st.probe("free_null_calls", out.hs.free_null);
     Violation v;
     if (pick_violation("C13", out.viol, st, &v)) return make_verdict(plan, v, out.hash);
+    // the ledger must balance after the matching release call under allocation failures too: sweep every k of one target call
+    bool has_fault = false;
+    for (auto& o : plan.ops) if (o.fail_k) has_fault = true;
+    if (has_fault && out.viol.empty()) {
+        st.runs--;
+        Verdict d = check_fault<C>(plan, st, "C13");
+        if (d.violated) return d;
+    }
     return none;
 }
 
